@@ -828,6 +828,7 @@ func (ex *Exec) lookup(fr *Frame, st *State, x *ssa.Lookup) Value {
 		return ex.fresh(st, "strindex", x.Type())
 	}
 	m := ex.term(ex.operand(fr, st, x.X), SInt, "map")
+	ex.mapIs(m, mt)
 	ks, vs := ex.mapSorts(mt)
 	k := ex.term(ex.operand(fr, st, x.Index), ks, "map key")
 	dom := ex.heapGet(st, MapDomKey(ks, mt), SArray(SInt, SArray(ks, SBool)))
@@ -850,6 +851,7 @@ func (ex *Exec) mapUpdate(fr *Frame, st *State, x *ssa.MapUpdate) {
 	ts := ex.ts
 	mt := x.Map.Type().Underlying().(*types.Map)
 	m := ex.term(ex.operand(fr, st, x.Map), SInt, "map")
+	ex.mapIs(m, mt)
 	ks, vs := ex.mapSorts(mt)
 	k := ex.term(ex.operand(fr, st, x.Key), ks, "map key")
 	v := ex.term(ex.operand(fr, st, x.Value), vs, "map value")
@@ -871,6 +873,7 @@ func (ex *Exec) mapUpdate(fr *Frame, st *State, x *ssa.MapUpdate) {
 
 func (ex *Exec) mapDelete(st *State, mt *types.Map, m, k *Term) {
 	ts := ex.ts
+	ex.mapIs(m, mt)
 	ks, _ := ex.mapSorts(mt)
 	dk := MapDomKey(ks, mt)
 	dom := ex.heapGet(st, dk, SArray(SInt, SArray(ks, SBool)))
